@@ -28,7 +28,8 @@ Definition key := string.
 Inductive prog :=
 | Skip
 | Rd (f : nat) (k : key)            (* function number f reads key k *)
-| Wr (f : nat) (k : key)            (* f (re)binds / deletes / partially overwrites key k *)
+| Wr (f : nat) (k : key)            (* f (re)binds / partially overwrites key k *)
+| Del (f : nat) (k : key)           (* f removes key k (net.pop / del) *)
 | Cp (f : nat) (dst src : key)      (* dst := src without looking at it (dict merge, deepcopy) *)
 | Abort (f : nat)                   (* raise *)
 | Seq (p q : prog)
@@ -68,7 +69,7 @@ Definition addp (c : nat) (ks : list key) (dp : list (nat * key)) : list (nat * 
 Fixpoint writes_user (p : prog) : bool :=
   match p with
   | Skip | Rd _ _ | Abort _ => false
-  | Wr _ k => is_user k
+  | Wr _ k | Del _ k => is_user k
   | Cp _ d _ => is_user d
   | Seq a b | Choice a b => writes_user a || writes_user b
   | Loop a | IfComp _ a => writes_user a
@@ -78,7 +79,7 @@ Fixpoint writes_user (p : prog) : bool :=
 Fixpoint first_user_write (p : prog) : option (nat * key) :=
   match p with
   | Skip | Rd _ _ | Abort _ => None
-  | Wr f k => if is_user k then Some (f, k) else None
+  | Wr f k | Del f k => if is_user k then Some (f, k) else None
   | Cp f d _ => if is_user d then Some (f, d) else None
   | Seq a b | Choice a b => match first_user_write a with Some x => Some x | None => first_user_write b end
   | Loop a | IfComp _ a => first_user_write a
@@ -105,7 +106,7 @@ Section Scan.
     match p with
     | Skip => Ok d
     | Rd f k => if defd cur d k then Ok d else Reject f k
-    | Wr f k => if String.eqb k CL then Reject f k else Ok (add k (fst d), snd d)
+    | Wr f k | Del f k => if String.eqb k CL then Reject f k else Ok (add k (fst d), snd d)
     | Cp f dst src =>
         if String.eqb dst CL then Reject f dst
         else if defd cur d src then Ok (add dst (fst d), snd d)
@@ -141,6 +142,45 @@ Definition accepts (E : list key) (p : prog) : bool :=
 Definition final_dset (E : list key) (p : prog) : dset :=
   match scan E None p ([], []) with Ok d => d | _ => ([], []) end.
 
+(* ---------------------------------------------------------------- what a call leaves in one key *)
+(* effect of one execution path on a key k: untouched, last action a write, last action a deletion *)
+Inductive effect := Untouched | Written | Deleted.
+
+Record eset := mkE { eU : bool; eW : bool; eD : bool }.      (* set of possible effects *)
+
+Definition e_in (e : effect) (x : eset) : bool :=
+  match e with Untouched => eU x | Written => eW x | Deleted => eD x end.
+Definition e_empty := mkE false false false.
+Definition e_one (e : effect) : eset :=
+  match e with Untouched => mkE true false false | Written => mkE false true false | Deleted => mkE false false true end.
+Definition e_union (x y : eset) : eset := mkE (eU x || eU y) (eW x || eW y) (eD x || eD y).
+(* paths of x followed by paths of y *)
+Definition e_then (x y : eset) : eset :=
+  let nonempty := eU x || eW x || eD x in
+  mkE (eU x && eU y) ((eW x && eU y) || (nonempty && eW y)) ((eD x && eU y) || (nonempty && eD y)).
+Definition then1 (a b : effect) : effect := match b with Untouched => a | _ => b end.
+
+Section Leak.
+  Variable k : key.
+  Variable des : nat -> bool.        (* the raise sites that count as "the call failed" *)
+
+  (* (effects at normal exits, effects at designated raise sites) *)
+  Fixpoint eff (p : prog) : eset * eset :=
+    match p with
+    | Skip | Rd _ _ => (e_one Untouched, e_empty)
+    | Wr _ k' => (if String.eqb k' k then e_one Written else e_one Untouched, e_empty)
+    | Del _ k' => (if String.eqb k' k then e_one Deleted else e_one Untouched, e_empty)
+    | Cp _ d _ => (if String.eqb d k then e_one Written else e_one Untouched, e_empty)
+    | Abort f => (e_empty, if des f then e_one Untouched else e_empty)
+    | Seq a b => let (na, aa) := eff a in let (nb, ab) := eff b in
+                 (e_then na nb, e_union aa (e_then na ab))
+    | Choice a b => let (na, aa) := eff a in let (nb, ab) := eff b in (e_union na nb, e_union aa ab)
+    | Loop a => let (na, aa) := eff a in
+                let star := e_union (e_one Untouched) na in (star, e_then star aa)
+    | IfComp _ a => let (na, aa) := eff a in (e_union (e_one Untouched) na, aa)
+    end.
+End Leak.
+
 (* ---------------------------------------------------------------- semantics *)
 Section Sem.
   Variable V : Type.
@@ -170,7 +210,7 @@ Section Sem.
     match p with
     | Skip => Normal s
     | Rd _ k => Normal (mk (sigma s) (sigma s k :: log s) (ctr s))
-    | Wr f k => Normal (mk (upd (sigma s) k (fw f k (log s))) (log s) (ctr s))
+    | Wr f k | Del f k => Normal (mk (upd (sigma s) k (fw f k (log s))) (log s) (ctr s))
     | Cp _ d src => Normal (mk (upd (sigma s) d (sigma s src)) (log s) (ctr s))
     | Abort f => Aborted f s
     | Seq a b => match exec a s with Normal s' => exec b s' | r => r end
@@ -182,6 +222,37 @@ Section Sem.
     end.
 
   Definition state_of (r : result) : st := match r with Normal s => s | Aborted _ s => s end.
+
+  (* the effect of the actual execution of p from s on key k (follows the decisions exec takes) *)
+  Fixpoint iter_eff (body : st -> result) (beff : st -> effect) (n : nat) (s : st) : effect :=
+    match n with
+    | O => Untouched
+    | S n' =>
+        let s' := mk (sigma s) (log s) (S (ctr s)) in
+        if fb (log s) (ctr s)
+        then match body s' with
+             | Normal s'' => then1 (beff s') (iter_eff body beff n' s'')
+             | Aborted _ _ => beff s'
+             end
+        else Untouched
+    end.
+
+  Fixpoint peff (k : key) (p : prog) (s : st) : effect :=
+    match p with
+    | Skip | Rd _ _ | Abort _ => Untouched
+    | Wr _ k' => if String.eqb k' k then Written else Untouched
+    | Del _ k' => if String.eqb k' k then Deleted else Untouched
+    | Cp _ d _ => if String.eqb d k then Written else Untouched
+    | Seq a b => match exec a s with
+                 | Normal s' => then1 (peff k a s) (peff k b s')
+                 | Aborted _ _ => peff k a s
+                 end
+    | Choice a b =>
+        let s' := mk (sigma s) (log s) (S (ctr s)) in
+        if fb (log s) (ctr s) then peff k a s' else peff k b s'
+    | Loop a => iter_eff (exec a) (peff k a) N s
+    | IfComp c a => if present c (sigma s CL) then peff k a s else Untouched
+    end.
 
   (* what a caller can observe of the way a call ended: returned / raised where, and everything read *)
   Definition same_outcome (r1 r2 : result) : Prop :=
@@ -260,7 +331,7 @@ Definition fn_writes_ok (e : string * list string * list string) : bool := all_i
 Fixpoint prog_eqb (a b : prog) : bool :=
   match a, b with
   | Skip, Skip => true
-  | Rd f k, Rd g l | Wr f k, Wr g l => Nat.eqb f g && String.eqb k l
+  | Rd f k, Rd g l | Wr f k, Wr g l | Del f k, Del g l => Nat.eqb f g && String.eqb k l
   | Cp f d s, Cp g e t => Nat.eqb f g && String.eqb d e && String.eqb s t
   | Abort f, Abort g => Nat.eqb f g
   | Seq p q, Seq r s | Choice p q, Choice r s => prog_eqb p r && prog_eqb q s
